@@ -106,6 +106,21 @@ func (dec *Decoder) ReadInt() (value int) {
 	return int(dec.ReadInt64())
 }
 
+// ReadCount reads the element count or length prefix of a list, map, object, string or bytes
+// item. A negative count is an error, and when the whole input is in memory a count larger than
+// the number of bytes that are left is an error too (every element takes at least one byte), so
+// that a few bytes of input cannot make the decoder allocate or iterate out of all proportion.
+func (dec *Decoder) ReadCount() int {
+	n := dec.ReadInt()
+	if n < 0 || (dec.reader == nil && n > dec.tail-dec.head) {
+		if dec.Error == nil {
+			dec.Error = DecodeError("hprose/io: invalid count " + strconv.Itoa(n))
+		}
+		return 0
+	}
+	return n
+}
+
 // ReadUint reads uint.
 func (dec *Decoder) ReadUint() (value uint) {
 	return uint(dec.ReadUint64())
